@@ -32,6 +32,10 @@ FIRST = {
     "C09-gauge-format-finite": "exit 2 (ryu stub had no format_finite) -> stub method with ryu's documented precondition (finite input)",
     "C08-label-key-leading-digit-unsanitised": "exit 0 (key_to_parts glue was only in C07's plan) -> labels template added to C08's plan; the change rewrites the format!/map/collect chain that R20 replaces, so it is now reported as undecided",
     "C06-clear-skips-last-shard": "exit 0 (Registry::clear had no contract) -> shard-accounting contract on clear; the change fuses the three loops, which the loop-indexed invariants cannot follow, so it is now reported as undecided",
+    "C19-gauge-fast-path-uses-counter-lookup": "exit 0 (the register_* methods had no contract) -> contracts on register_counter / gauge / histogram: handle backed by THIS kind's storage, key tracked under THIS kind",
+    "C19-idle-histogram-not-listed": "exit 2 (Bucket stub had no is_empty) -> stub method; the listing contract of snapshot then fails",
+    "C06-delete-by-hash-only": "reported at first (the weak from_hash stub made ANY predicate closure unprovable, also a correct one) -> since the closure rule (a failure in a function that gained a closure without a contract is undecided) it is exit 2: honest, the earlier report was right for the wrong reason",
+    "C18-covered-check-uses-network-base": "exit 2 (IpNet stub lacked contains(&IpNet) / network()) -> stub widened and the contract restated over what the list ADMITS; the change still ends undecided because its test sits in a new closure (and a correct de-duplication would otherwise have been flagged: that false alarm is what the closure rule prevents)",
     "C17-new-span-merges-current-not-parent": "exit 2 expected, not run (Context stub lacked lookup_current) -> stub widened",
     "C17-filter-sees-empty-value": "exit 2 expected, not run (closure annotation keyed to parameter names) -> annotation by position",
 }
